@@ -209,6 +209,7 @@ type c19Entry struct {
 	seenAt  int64 // logical stamp of the far-side observation, 0 = not observed
 	samePtr bool
 	reacted bool // REQ with an inner middleware: the inner reaction has been observed
+	race    int  // > 0: released together with the other message carrying the same tag
 }
 
 func (e *c19Entry) String() string {
@@ -223,6 +224,9 @@ func (e *c19Entry) String() string {
 	if e.origin != "script" {
 		s += " (" + e.origin + ")"
 	}
+	if e.race != 0 {
+		s += fmt.Sprintf(" raced#%d", e.race)
+	}
 	return s
 }
 
@@ -234,6 +238,8 @@ type c19Cmd struct {
 	ret    bool
 	err    error
 	ack    chan *c19Entry // buffered 1
+	gate   *c19Gate       // racing profile: B itself waits at the barrier before handing the message over
+	skew   int
 }
 
 type c19Sess struct {
@@ -267,6 +273,8 @@ type c19Sess struct {
 	open     map[string]bool
 	last     map[string]string
 	lastIn   map[string]bool // the last CLOSED of the id came from the real inner middleware
+	maybe    map[string]bool // ids whose state is open-or-ended after an unordered REQ || CLOSED
+	raceTag  map[any]int     // message -> race tag (written at plan time)
 }
 
 func (s *c19Sess) bumpLocked() {
@@ -304,6 +312,10 @@ func (s *c19Sess) offer(dir int, msg any, origin string) *c19Entry {
 	if s.returned {
 		return nil
 	}
+	if t := s.raceTag[msg]; t != 0 {
+		e.race = t
+		delete(s.raceTag, msg)
+	}
 	s.ent[dir] = append(s.ent[dir], e)
 	return e
 }
@@ -338,6 +350,14 @@ func (s *c19Sess) traceLocked(max int) map[string]any {
 	}
 	sort.Strings(op)
 	out["open_subscriptions_model"] = op
+	var mb []string
+	for k := range s.maybe {
+		mb = append(mb, k)
+	}
+	sort.Strings(mb)
+	if len(mb) > 0 {
+		out["open_or_ended_after_unordered_REQ_and_CLOSED"] = mb
+	}
 	return out
 }
 
@@ -575,6 +595,8 @@ func (g *c19Group) newSession() *c19Sess {
 		open:       map[string]bool{},
 		last:       map[string]string{},
 		lastIn:     map[string]bool{},
+		maybe:      map[string]bool{},
+		raceTag:    map[any]int{},
 	}
 	s.ctx, s.cancel = context.WithCancel(context.WithValue(context.Background(), c19Key{}, s))
 	g.all = append(g.all, s)
@@ -651,10 +673,30 @@ func (g *c19Group) boundary() mocrelay.Handler {
 				toInner = toInner[1:]
 			case c := <-s.cmds:
 				if c.ret {
+					if c.gate != nil {
+						c.gate.wait()
+						c19Spin(c.skew)
+					}
 					c.ack <- nil
 					return c.err
 				}
-				toMw = append(toMw, queued{s.offer(c19Srv, c.msg, c.origin), c})
+				e := s.offer(c19Srv, c.msg, c.origin)
+				if c.gate != nil {
+					c.gate.wait()
+					c19Spin(c.skew)
+					if len(toMw) == 0 {
+						// hand it over right here, one hop away from the middleware
+						select {
+						case send <- c.msg:
+							s.settle(e, c19Handed)
+						case <-ctx.Done():
+							s.settle(e, c19Aborted)
+						}
+						c.ack <- e
+						continue
+					}
+				}
+				toMw = append(toMw, queued{e, c})
 			case m := <-isend:
 				toMw = append(toMw, queued{s.offer(c19Srv, m, "inner"), nil})
 			case sc <- sm:
@@ -704,16 +746,21 @@ type c19Op struct {
 	retErr   error
 	gaugeRel bool
 	dep      *c19Op
+	dep2     *c19Op
 	waitSeen bool
+	race     int
 	done     chan struct{}
 }
 
 // sendClient hands one client message to the middleware.
-func (s *c19Sess) sendClient(msg mocrelay.ClientMsg, origin string) *c19Entry {
+func (s *c19Sess) sendClient(msg mocrelay.ClientMsg, origin string, pre *c19Entry) *c19Entry {
 	if s.recvClosed {
 		return nil
 	}
-	e := s.offer(c19Cli, msg, origin)
+	e := pre
+	if e == nil {
+		e = s.offer(c19Cli, msg, origin)
+	}
 	if e == nil {
 		return nil
 	}
@@ -729,8 +776,8 @@ func (s *c19Sess) sendClient(msg mocrelay.ClientMsg, origin string) *c19Entry {
 }
 
 // sendServer asks B to hand one server message to the middleware.
-func (s *c19Sess) sendServer(msg mocrelay.ServerMsg, origin string) *c19Cmd {
-	c := &c19Cmd{msg: msg, origin: origin, ack: make(chan *c19Entry, 1)}
+func (s *c19Sess) sendServer(msg mocrelay.ServerMsg, origin string, gate *c19Gate, skew int) *c19Cmd {
+	c := &c19Cmd{msg: msg, origin: origin, ack: make(chan *c19Entry, 1), gate: gate, skew: skew}
 	select {
 	case s.cmds <- c:
 		return c
@@ -772,11 +819,37 @@ func (s *c19Sess) awaitSeen(e *c19Entry) {
 }
 
 // runList executes the operations of one direction of one session in order.
-func (s *c19Sess) runList(ops []*c19Op) {
+// The first operation of a racing pair is released at the round's barrier from as
+// close to the middleware as possible: the client message is recorded before the
+// barrier, the handler-side message is handed over by B itself after the barrier.
+func (s *c19Sess) runList(ops []*c19Op, gate *c19Gate, skew int) {
 	var unacked []*c19Cmd
-	for _, op := range ops {
+	var pre *c19Entry
+	var bGate *c19Gate
+	first := ops[0]
+	isMsg := first.what != "cancel" && first.what != "closeRecv" && first.what != "return"
+	switch {
+	case first.race != 0 && gate.spin && first.dir == c19Srv && (isMsg || first.what == "return"):
+		bGate = gate // B arrives at the barrier in this goroutine's place
+	case first.race != 0 && gate.spin && first.dir == c19Cli && isMsg && !s.recvClosed:
+		pre = s.offer(c19Cli, first.msg, "script")
+		gate.wait()
+		c19Spin(skew)
+	default:
+		gate.wait()
+		c19Spin(skew)
+	}
+	for i, op := range ops {
 		if op.dep != nil {
 			<-op.dep.done
+		}
+		if op.dep2 != nil {
+			<-op.dep2.done
+		}
+		var opGate *c19Gate
+		var opPre *c19Entry
+		if i == 0 {
+			opGate, opPre = bGate, pre
 		}
 		switch op.what {
 		case "cancel":
@@ -790,20 +863,26 @@ func (s *c19Sess) runList(ops []*c19Op) {
 			}
 		case "return":
 			s.initEnd("return")
-			c := &c19Cmd{ret: true, err: op.retErr, ack: make(chan *c19Entry, 1)}
+			c := &c19Cmd{ret: true, err: op.retErr, ack: make(chan *c19Entry, 1), gate: opGate, skew: skew}
 			select {
 			case s.cmds <- c:
 			case <-s.returnedCh:
+				if opGate != nil {
+					opGate.arrive()
+				}
 			case <-s.g.abort:
 			}
 		default:
 			if op.dir == c19Cli {
-				e := s.sendClient(op.msg.(mocrelay.ClientMsg), "script")
+				e := s.sendClient(op.msg.(mocrelay.ClientMsg), "script", opPre)
 				if op.waitSeen {
 					s.awaitSeen(e)
 				}
 			} else {
-				c := s.sendServer(op.msg.(mocrelay.ServerMsg), "script")
+				c := s.sendServer(op.msg.(mocrelay.ServerMsg), "script", opGate, skew)
+				if c == nil && opGate != nil {
+					opGate.arrive()
+				}
 				if c != nil {
 					if op.waitSeen {
 						s.awaitSeen(s.awaitAck(c))
@@ -992,6 +1071,7 @@ type c19SessPlan struct {
 	s     *c19Sess
 	start bool
 	lists [2][]*c19Op
+	skew  [2]int
 }
 
 // c19Gate releases the goroutines of a round together: by a channel close, or (burst
@@ -1001,6 +1081,7 @@ type c19Gate struct {
 	n       int32
 	arrived atomic.Int32
 	ch      chan struct{}
+	abort   <-chan struct{}
 }
 
 func (gt *c19Gate) wait() {
@@ -1011,8 +1092,29 @@ func (gt *c19Gate) wait() {
 	gt.arrived.Add(1)
 	for i := 1; gt.arrived.Load() < gt.n; i++ {
 		if i%512 == 0 {
+			select {
+			case <-gt.abort:
+				return
+			default:
+			}
 			runtime.Gosched()
 		}
+	}
+}
+
+// arrive is wait for a participant that has nothing left to release.
+func (gt *c19Gate) arrive() {
+	if gt.spin {
+		gt.arrived.Add(1)
+	}
+}
+
+var c19SpinSink atomic.Int64
+
+// c19Spin delays the caller by n short steps (the seeded skew between two racers).
+func c19Spin(n int) {
+	for i := 0; i < n; i++ {
+		c19SpinSink.Load()
 	}
 }
 
@@ -1021,7 +1123,7 @@ func (g *c19Group) runRound(plans []c19SessPlan, final bool) {
 		g.stop(fmt.Sprintf("round %d not quiescent within %s", g.round.Load(), c19RoundBound))
 	})
 	defer wd.Stop()
-	gate := &c19Gate{spin: g.profile == "burst", ch: make(chan struct{})}
+	gate := &c19Gate{spin: g.profile == "burst" || g.profile == "racing", ch: make(chan struct{}), abort: g.abort}
 	for _, p := range plans {
 		if p.start {
 			gate.n++
@@ -1049,11 +1151,11 @@ func (g *c19Group) runRound(plans []c19SessPlan, final bool) {
 				continue
 			}
 			l := p.lists[d]
+			sk := p.skew[d]
 			wg.Add(1)
 			go func() {
 				defer wg.Done()
-				gate.wait()
-				p.s.runList(l)
+				p.s.runList(l, gate, sk)
 			}()
 		}
 	}
@@ -1105,11 +1207,11 @@ func (g *c19Group) probe() {
 		s.mu.Unlock()
 		if lag[c19Cli] {
 			g.rep.Count("probes_sent", 1)
-			s.sendClient(g.clientMsg(r, "EVENT", ""), "probe")
+			s.sendClient(g.clientMsg(r, "EVENT", ""), "probe", nil)
 		}
 		if lag[c19Srv] {
 			g.rep.Count("probes_sent", 1)
-			if c := s.sendServer(g.serverMsg(r, "NOTICE", ""), "probe"); c != nil {
+			if c := s.sendServer(g.serverMsg(r, "NOTICE", ""), "probe", nil, 0); c != nil {
 				s.awaitAck(c)
 			}
 		}
@@ -1186,8 +1288,58 @@ func (s *c19Sess) applyLocked() {
 	}
 	sort.Slice(news, func(i, j int) bool { return news[i].seenAt < news[j].seenAt })
 	g := s.g
+	// the two messages of a racing pair are unordered: they are applied together
+	partner := map[int]*c19Entry{}
+	paired := map[*c19Entry]bool{}
 	for _, e := range news {
+		if e.race != 0 {
+			if p := partner[e.race]; p != nil && p.sub == e.sub {
+				paired[p], paired[e] = true, true
+			} else {
+				partner[e.race] = e
+			}
+		}
+	}
+	for _, e := range news {
+		if paired[e] {
+			first := partner[e.race]
+			if first != e {
+				continue // applied when its partner came up
+			}
+			var second *c19Entry
+			for _, x := range news {
+				if x != e && x.race == e.race && paired[x] {
+					second = x
+				}
+			}
+			was := "ended"
+			if s.open[e.sub] {
+				was = "open"
+			} else if s.maybe[e.sub] {
+				was = "ambiguous"
+			}
+			kind := e.label + "||" + second.label
+			if e.label == "CLOSED" {
+				kind = second.label + "||" + e.label
+			}
+			g.feat["race-"+kind+"-on-"+was] = true
+			g.rep.Count("race_first_on_far_side:"+kind+":"+e.label, 1)
+			delete(s.open, e.sub)
+			delete(s.maybe, e.sub)
+			if kind == "REQ||CLOSED" {
+				s.maybe[e.sub] = true // opened-then-ended or ended-then-opened: both are allowed
+				s.last[e.sub] = "RACE"
+			} else {
+				s.last[e.sub] = "CLOSE" // ended exactly once, whichever came first
+			}
+			s.lastIn[e.sub] = false
+			continue
+		}
 		prev := s.last[e.sub]
+		if s.maybe[e.sub] {
+			g.feat[e.label+"-on-ambiguous"] = true
+			delete(s.maybe, e.sub)
+		}
 		if prev == "CLOSED" && s.lastIn[e.sub] {
 			g.feat[e.label+"-after-inner-CLOSED"] = true
 		}
@@ -1242,7 +1394,7 @@ func (g *c19Group) check(final bool) {
 		return
 	}
 	g.feat = map[string]bool{}
-	live, open := 0, 0
+	live, open, amb := 0, 0, 0
 	cutInflight := 0
 	var keep []*c19Sess
 	var sessWit []map[string]any
@@ -1298,6 +1450,7 @@ func (g *c19Group) check(final bool) {
 		} else {
 			live++
 			open += len(s.open)
+			amb += len(s.maybe)
 			keep = append(keep, s)
 			if len(sessWit) < 12 {
 				sessWit = append(sessWit, s.traceLocked(25))
@@ -1310,6 +1463,9 @@ func (g *c19Group) check(final bool) {
 
 	witness := func() map[string]any {
 		exp := map[string]any{"connection_count": live, "req_count": open}
+		if amb > 0 {
+			exp["req_count_max"] = open + amb
+		}
 		lo, hi := map[string]int64{}, map[string]int64{}
 		for k, v := range g.hi {
 			hi[k] = v
@@ -1325,20 +1481,24 @@ func (g *c19Group) check(final bool) {
 	}
 	for _, gc := range []struct {
 		name, short string
-		want        int
-	}{{"mocrelay_connection_count", "connection_count", live}, {"mocrelay_req_count", "req_count", open}} {
+		want, max   int
+	}{{"mocrelay_connection_count", "connection_count", live, live}, {"mocrelay_req_count", "req_count", open, open + amb}} {
 		v, ok := snap.gauges[gc.name]
 		if !ok {
 			g.violate("exported/missing/"+gc.short, gc.name+" is not exported by the registry", witness())
 			return
 		}
-		if v != float64(gc.want) {
+		if v < float64(gc.want) || v > float64(gc.max) {
 			dirn := "too-high"
 			if v < float64(gc.want) {
 				dirn = "too-low"
 			}
+			real := strconv.Itoa(gc.want)
+			if gc.max != gc.want {
+				real = fmt.Sprintf("%d..%d (%d subscription(s) hit by an unordered REQ || CLOSED)", gc.want, gc.max, gc.max-gc.want)
+			}
 			g.violate("gauge/"+gc.short+"/"+dirn+at,
-				fmt.Sprintf("%s = %v at a quiescent point, reality = %d (live sessions %d, open subscriptions %d)", gc.name, v, gc.want, live, open), witness())
+				fmt.Sprintf("%s = %v at a quiescent point, reality = %s (live sessions %d, open subscriptions %d)", gc.name, v, real, live, open), witness())
 			return
 		}
 	}
@@ -1376,6 +1536,9 @@ func (g *c19Group) check(final bool) {
 	if open > 0 {
 		rep.Count("quiescent_points_with_open_subscriptions", 1)
 	}
+	if amb > 0 {
+		rep.Count("quiescent_points_with_ambiguous_subscription", 1)
+	}
 	var fl []string
 	for f := range g.feat {
 		fl = append(fl, f)
@@ -1395,7 +1558,7 @@ func (g *c19Group) check(final bool) {
 	if final {
 		rep.Count("groups_ended_with_zero_gauges", 1)
 	}
-	if g.round.Load() == 2 && ((g.profile == "burst" && g.gi == 0 && live > 0) || (g.profile == "churn" && g.gi == 0) || ((g.profile == "mixed" || g.profile == "maxsubs") && g.gi < 2)) {
+	if g.round.Load() == 2 && ((g.profile == "burst" && g.gi == 0 && live > 0) || ((g.profile == "churn" || g.profile == "racing") && g.gi == 0) || ((g.profile == "mixed" || g.profile == "maxsubs") && g.gi < 2)) {
 		rep.Sample(map[string]any{"profile": g.profile, "group": g.gi, "round": g.round.Load(), "live_sessions": live, "open_subscriptions": open,
 			"features_this_round": fl, "exported_gauges": snap.gauges, "exported_counters": snap.counters})
 	}
@@ -1603,22 +1766,128 @@ func c19RunBurst(rep *vk.Report, gi, rounds int) {
 	}
 }
 
+// racing: for a subscription of a long-lived session the client's CLOSE and the
+// handler's CLOSED (or the client's REQ and the handler's CLOSED, or the client's CLOSE
+// and the end of the session) are released by the spin barrier at the same instant.
+// CLOSE || CLOSED ends the subscription exactly once whichever comes first, so the
+// expectation stays exact; REQ || CLOSED leaves "open or ended" (a range of one) until
+// the next chained CLOSE settles it.
+func c19RunRacing(rep *vk.Report, gi, rounds int) {
+	r := vk.RNG("C19/racing", gi)
+	g := c19NewGroup(rep, "racing", gi, r)
+	defer g.finish()
+	type slot struct {
+		s   *c19Sess
+		sub string
+	}
+	slots := make([]slot, 1+r.IntN(3))
+	tag := 0
+	mk := func(sl slot, dir int, label string) *c19Op {
+		op := &c19Op{dir: dir, what: label, sub: sl.sub, gaugeRel: true, done: make(chan struct{})}
+		if dir == c19Cli {
+			op.msg = g.clientMsg(r, label, sl.sub)
+		} else {
+			op.msg = g.serverMsg(r, label, sl.sub)
+		}
+		return op
+	}
+	racer := func(sl slot, op *c19Op) *c19Op {
+		op.race = tag
+		op.waitSeen = true
+		if op.msg != nil {
+			sl.s.mu.Lock()
+			sl.s.raceTag[op.msg] = tag
+			sl.s.mu.Unlock()
+		}
+		return op
+	}
+	after := func(op, a, b *c19Op) *c19Op {
+		op.dep, op.dep2 = a, b
+		op.waitSeen = true
+		return op
+	}
+	for round := 1; round <= rounds+1 && !g.aborted(); round++ {
+		g.round.Store(int64(round))
+		final := round == rounds+1
+		var plans []c19SessPlan
+		for i := range slots {
+			sl := slots[i]
+			if sl.s == nil {
+				if final {
+					continue
+				}
+				sl = slot{g.newSession(), vk.Pick(r, g.subIDs)}
+				slots[i] = sl
+				plans = append(plans, c19SessPlan{s: sl.s, start: true, lists: [2][]*c19Op{{mk(sl, c19Cli, "REQ")}, nil}})
+				continue
+			}
+			if final {
+				plans = append(plans, c19SessPlan{s: sl.s, lists: g.planSession(r, 0, c19EndKind(r), c19Mix)})
+				continue
+			}
+			tag++
+			p := c19SessPlan{s: sl.s}
+			// seeded skew between the two racers: 0..~1 microsecond on one side
+			p.skew[(round/24)%2] = (round % 24) * 3
+			switch k := r.IntN(100); {
+			case k < 72: // CLOSE || CLOSED
+				a, b := racer(sl, mk(sl, c19Cli, "CLOSE")), racer(sl, mk(sl, c19Srv, "CLOSED"))
+				p.lists[c19Cli] = []*c19Op{a}
+				p.lists[c19Srv] = []*c19Op{b}
+				if r.IntN(10) < 9 {
+					p.lists[c19Cli] = append(p.lists[c19Cli], after(mk(sl, c19Cli, "REQ"), a, b))
+				}
+				rep.Count("racing_rounds:CLOSE||CLOSED", 1)
+			case k < 86: // REQ || CLOSED
+				a, b := racer(sl, mk(sl, c19Cli, "REQ")), racer(sl, mk(sl, c19Srv, "CLOSED"))
+				p.lists[c19Cli] = []*c19Op{a}
+				p.lists[c19Srv] = []*c19Op{b}
+				if r.IntN(10) < 7 {
+					c := after(mk(sl, c19Cli, "CLOSE"), a, b)
+					p.lists[c19Cli] = append(p.lists[c19Cli], c, after(mk(sl, c19Cli, "REQ"), c, nil))
+				}
+				rep.Count("racing_rounds:REQ||CLOSED", 1)
+			default: // CLOSE || end of the session
+				a := racer(sl, mk(sl, c19Cli, "CLOSE"))
+				e := &c19Op{dir: c19Srv, what: vk.Pick(r, []string{"cancel", "return"}), race: tag, done: make(chan struct{})}
+				p.lists[c19Cli] = []*c19Op{a}
+				p.lists[c19Srv] = []*c19Op{e}
+				slots[i].s = nil
+				rep.Count("racing_rounds:CLOSE||end", 1)
+			}
+			plans = append(plans, p)
+		}
+		g.runRound(plans, final)
+	}
+}
+
 func TestVerif_C19(t *testing.T) {
 	rep := vk.NewReport(t, "C19", "exploration")
-	rep.Rule = "a group = one fresh registry + NewPrometheusMiddleware over the monitor's boundary handler; profiles: mixed (1-8 sessions, 3-10 rounds of 0-8 seeded operations per session: REQ/CLOSE/EVENT/COUNT/AUTH from the client, EOSE/EVENT/NOTICE/OK/AUTH/COUNT/CLOSED from the handler, 2-4 subscription ids shared by all sessions, sessions ended by cancel / inbound close / handler return at a seeded position), maxsubs (same, with a real NewMaxSubscriptionsMiddleware(1..3) below the boundary producing CLOSED), churn (150/400 rounds on one registry, 0-8 sessions starting and 0-8 ending simultaneously, REQ-heavy), burst (300/1000 rounds of 2-4 sessions released by a spin barrier into the middleware at the same instant, compared, then ended at the same instant, compared; no messages). All operations of a round run concurrently; REQ/CLOSE/CLOSED of the same (session, id) are causally chained. One evaluation = one quiescent point at which Gather() is compared with both sides' records; non-trivial = live sessions or a subscription-set transition in the round; distinct = (profile, live sessions, open subscriptions, set of transition classes of the round)"
+	rep.Rule = "a group = one fresh registry + NewPrometheusMiddleware over the monitor's boundary handler; profiles: mixed (1-8 sessions, 3-10 rounds of 0-8 seeded operations per session: REQ/CLOSE/EVENT/COUNT/AUTH from the client, EOSE/EVENT/NOTICE/OK/AUTH/COUNT/CLOSED from the handler, 2-4 subscription ids shared by all sessions, sessions ended by cancel / inbound close / handler return at a seeded position), maxsubs (same, with a real NewMaxSubscriptionsMiddleware(1..3) below the boundary producing CLOSED), churn (150/400 rounds on one registry, 0-8 sessions starting and 0-8 ending simultaneously, REQ-heavy), burst (250/1000 rounds of 2-4 sessions released by a spin barrier into the middleware at the same instant, compared, then ended at the same instant, compared; no messages), racing (500/3000 rounds on 1-3 long-lived sessions: the client's CLOSE and the handler's CLOSED for the same open subscription - or REQ and CLOSED, or CLOSE and the session's end - are released by the spin barrier at the same instant with a seeded skew; the chain continues only after both were observed on their far sides). All operations of a round run concurrently; REQ/CLOSE/CLOSED of the same (session, id) are causally chained except for the racing pairs, whose two members are applied to the model together (CLOSE || CLOSED: ended once; REQ || CLOSED: open-or-ended, gauge accepted in a range of one until settled). One evaluation = one quiescent point at which Gather() is compared with both sides' records; non-trivial = live sessions or a subscription-set transition in the round; distinct = (profile, live sessions, open subscriptions, set of transition classes of the round)"
 	rep.Assume("counter values of a session that was cut while a message was between the two sides are accepted anywhere between 'observed on the far side' and 'taken by the middleware'")
 	rep.Assume("unknown message types (label UNDEFINED) and typed-nil messages are not generated; mocrelay_req_response_seconds is not judged")
 	defer rep.Finish()
 
 	// phase 1: bursts, few groups at a time so that the spinning goroutines own their CPUs
-	nBurst := vk.N(24, 96)
-	burstRounds := vk.N(300, 1000)
+	nBurst := vk.N(20, 96)
+	burstRounds := vk.N(250, 1000)
 	bw := runtime.GOMAXPROCS(0) / 4
 	vk.ParallelW(bw, nBurst, func(i int) {
 		if rep.Violations() >= 6 {
 			return
 		}
 		c19RunBurst(rep, i, burstRounds)
+		rep.Count("groups", 1)
+	})
+
+	// phase 2: racing pairs, again with few groups at a time
+	nRacing := vk.N(20, 64)
+	racingRounds := vk.N(500, 3000)
+	vk.ParallelW(runtime.GOMAXPROCS(0)/5, nRacing, func(i int) {
+		if rep.Violations() >= 6 {
+			return
+		}
+		c19RunRacing(rep, i, racingRounds)
 		rep.Count("groups", 1)
 	})
 
@@ -1645,7 +1914,15 @@ func TestVerif_C19(t *testing.T) {
 	if rep.Violations() > 0 {
 		return // the run was cut short on purpose; the gates below would only add noise
 	}
-	total += nBurst
+	total += nBurst + nRacing
+	rep.Require(rep.Counter("quiescent_points:racing") >= int64(nRacing*racingRounds), "racing rounds did not all reach quiescence")
+	rep.Require(rep.Counter("racing_rounds:CLOSE||CLOSED") >= int64(nRacing*racingRounds/2), "too few CLOSE || CLOSED racing rounds")
+	for _, f := range []string{"race-CLOSE||CLOSED-on-open", "race-CLOSE||CLOSED-on-ended", "race-CLOSE||CLOSED-on-ambiguous", "race-REQ||CLOSED-on-open", "race-REQ||CLOSED-on-ended"} {
+		rep.Require(rep.Counter("feature:"+f) >= 20, "racing pair "+f+" seen in fewer than 20 rounds")
+	}
+	for _, o := range []string{"CLOSE||CLOSED:CLOSE", "CLOSE||CLOSED:CLOSED"} {
+		rep.Require(rep.Counter("race_first_on_far_side:"+o) >= 50, "racing pairs came out in one order only ("+o+" first fewer than 50 times)")
+	}
 	qp := rep.Counter("quiescent_points")
 	rep.Require(qp >= int64(total*3), "too few quiescent points")
 	rep.Require(rep.Counter("burst_simultaneous_starts") >= int64(nBurst*burstRounds) && rep.Counter("burst_simultaneous_ends") >= int64(nBurst*burstRounds), "burst rounds did not all run")
